@@ -23,6 +23,26 @@ def _need(cond, msg):
         raise RefDecodeError(msg)
 
 
+# Reserved / pad byte *values* are checked only in strict mode; structure (lengths, counts, offsets, sizes) always.
+STRICT_RESERVED = [True]
+
+
+def _zero(value_is_zero, msg):
+    if STRICT_RESERVED[0] and not value_is_zero:
+        raise RefDecodeError(msg)
+
+
+class structural_only(object):
+    """with rc.structural_only(): decode accepting any value in reserved / pad bytes."""
+
+    def __enter__(self):
+        self.old = STRICT_RESERVED[0]
+        STRICT_RESERVED[0] = False
+
+    def __exit__(self, *a):
+        STRICT_RESERVED[0] = self.old
+
+
 # ------------------------------------------------------------------------------------------------
 # elementary types
 
@@ -102,7 +122,7 @@ def dec_values(t, raw, count=None):
             _need(pos + n + pad <= len(raw), '%s body truncated' % t)
             out.append(raw[pos:pos + n].decode('iso-8859-1'))
             if pad:
-                _need(raw[pos + n] == 0, 'STRING pad not NUL')
+                _zero(raw[pos + n] == 0, 'STRING pad not NUL')
             pos += n + pad
     else:
         fmt, size = TYPES[t][1], TYPES[t][2]
@@ -194,7 +214,7 @@ def dec_segments(raw):
             _need(pos + 2 + n + n % 2 <= len(raw), 'symbolic segment body truncated')
             segs.append({'symbolic': raw[pos + 2:pos + 2 + n].decode('iso-8859-1')})
             if n % 2:
-                _need(raw[pos + 2 + n] == 0, 'symbolic pad not NUL')
+                _zero(raw[pos + 2 + n] == 0, 'symbolic pad not NUL')
             pos += 2 + n + n % 2
         elif (t & 0xE0) == 0x00:
             start = pos
@@ -214,7 +234,8 @@ def dec_segments(raw):
                 link = raw[pos:pos + n].decode('iso-8859-1')
                 pos += n
                 if (pos - start) % 2:
-                    _need(pos < len(raw) and raw[pos] == 0, 'port segment pad missing')
+                    _need(pos < len(raw), 'port segment pad missing')
+                    _zero(raw[pos] == 0, 'port segment pad not NUL')
                     pos += 1
             else:
                 port = small
@@ -235,11 +256,13 @@ def dec_segments(raw):
                 v = raw[pos + 1]
                 pos += 2
             elif fmt == 1:
-                _need(pos + 4 <= len(raw) and raw[pos + 1] == 0, '16-bit logical segment malformed')
+                _need(pos + 4 <= len(raw), '16-bit logical segment truncated')
+                _zero(raw[pos + 1] == 0, '16-bit logical segment pad not NUL')
                 v = struct.unpack_from('<H', raw, pos + 2)[0]
                 pos += 4
             elif fmt == 2:
-                _need(pos + 6 <= len(raw) and raw[pos + 1] == 0, '32-bit logical segment malformed')
+                _need(pos + 6 <= len(raw), '32-bit logical segment truncated')
+                _zero(raw[pos + 1] == 0, '32-bit logical segment pad not NUL')
                 v = struct.unpack_from('<I', raw, pos + 2)[0]
                 pos += 6
             else:
@@ -256,7 +279,8 @@ def dec_epath(raw, pos, padded=False):
     words = raw[pos]
     pos += 1
     if padded:
-        _need(pos < len(raw) and raw[pos] == 0, 'EPATH pad missing')
+        _need(pos < len(raw), 'EPATH pad missing')
+        _zero(raw[pos] == 0, 'EPATH pad not NUL')
         pos += 1
     _need(pos + 2 * words <= len(raw), 'EPATH body truncated')
     return dec_segments(raw[pos:pos + 2 * words]), pos + 2 * words
@@ -412,7 +436,7 @@ def dec_unconnected_send(raw):
     msg = raw[pos:pos + n]
     pos += n
     if n % 2:
-        _need(raw[pos] == 0, 'Unconnected Send pad not NUL')
+        _zero(raw[pos] == 0, 'Unconnected Send pad not NUL')
         pos += 1
     route, pos = dec_epath(raw, pos, padded=True)
     _need(pos == len(raw), 'trailing bytes after Unconnected Send route path')
